@@ -203,38 +203,87 @@ class ChooserModel:
         self.te_parse = te_parser(facts, cte)
         te_parse = self.te_parse
         f = self.f = inline.inlined(facts, cte.id, stop=lambda d: facts.fns[d].rec.get("local") and (not same(d) or d == te_parse), extern_ok=Q.std_small)
-        # parameters by type: status (StatusCode), request headers (&[Header]), version (&HTTPVersion), entity length (&Option<usize>), bools, threshold (usize)
+        # inputs by type, whether they are parameters of their own or fields of a struct of the crate handed in (by value or by reference):
+        # status (StatusCode), request headers (&[Header]), version (&HTTPVersion), entity length (Option<usize>), bools, threshold (usize)
+        self.fixed_false = {}
         P = self.P = {}
+        def classify(ty):
+            t = re.sub(r"^&('\w+ )?(mut )?", "", ty)
+            if t == STATUS:
+                return "status"
+            if t.startswith("[common::Header"):
+                return "headers"
+            if t == HV:
+                return "version"
+            if "Option<usize>" in t:
+                return "length"
+            if t == "usize":
+                return "threshold"
+            if t == "bool":
+                return "bools"
+            return None
+        def visit(i, path, ty, depth=0):
+            k = classify(ty)
+            if k == "bools":
+                P.setdefault("bools", []).append((i, path))
+            elif k is not None:
+                P.setdefault(k, (i, path))
+            else:
+                a = facts.adts.get(re.sub(r"<.*$", "", re.sub(r"^&('\w+ )?(mut )?", "", ty)))
+                if a is not None and a["kind"] == "Struct" and depth < 2:
+                    for x in a["variants"][0]["fields"]:
+                        visit(i, path + ((a["id"], x["name"], x["ty"]),), x["ty"], depth + 1)
         for i in range(1, f.argc + 1):
-            ty = f.locals[i]["ty"]
-            if ty == STATUS:
-                P["status"] = i
-            elif ty.startswith("&[common::Header"):
-                P["headers"] = i
-            elif ty == "&" + HV or ty == HV:
-                P["version"] = i
-            elif "Option<usize>" in ty:
-                P["length"] = i
-            elif ty == "usize":
-                P["threshold"] = i
-            elif ty == "bool":
-                P.setdefault("bools", []).append(i)
+            visit(i, (), f.locals[i]["ty"])
         if not {"status", "version", "length", "threshold"} <= set(P):
             raise CheckerError("C05.1: parameters of the coding chooser (%s)" % sorted(P))
+
+    def key_of(self, slot):
+        """symbolic-state key of an input, and whether what is stored there is a reference"""
+        i, path = slot
+        f = self.f
+        key = (i,)
+        ty = f.locals[i]["ty"]
+        for adt, name, fty in path:
+            if ty.startswith("&"):
+                key += ("*",)
+            key += ("." + name,)
+            ty = fty
+        return key, ty.startswith("&")
+
+    def put(self, st, slot, val):
+        key, is_ref = self.key_of(slot)
+        if is_ref and len(key) == 1:
+            st.write_key(key + ("*",), val)
+        else:
+            st.write_key(key, ("constref", val) if is_ref else val)
+
+    def bool_is_fixed_false(self, slot):
+        """a boolean input that every caller sets to the literal false (has_additional_headers): a direct argument, or a field of an
+        argument bundle at each place the bundle is built"""
+        facts = self.facts
+        i, path = slot
+        if not path:
+            sites = facts.callers_of(self.cte.id)
+            return bool(sites) and all(op_const(t["args"][i - 1]) is False for g, bb, t in sites)
+        adt, name, fty = path[-1]
+        cons = facts.constructions(adt)
+        a = facts.adts[adt]
+        idx = [x["name"] for x in a["variants"][0]["fields"]].index(name)
+        return bool(cons) and all(op_const(s["rhs"]["ops"][idx]) is False for g, bb, s in cons)
 
     def outcomes(self, ver, stt, ln, thr):
         """the codings the chooser can return for this input: 'Identity' / 'Chunked' / 'client' (what the TE header asked for)"""
         import absint
         f, P = self.f, self.P
         st = symex.Sym(f)
-        st.write_key((P["status"],), ("agg", STATUS, "StatusCode", {"0": ("const", stt, "%d_u16" % stt, None)}))
-        vkey = (P["version"], "*") if f.locals[P["version"]]["ty"].startswith("&") else (P["version"],)
-        st.write_key(vkey, hv(*ver))
-        lkey = (P["length"], "*") if f.locals[P["length"]]["ty"].startswith("&") else (P["length"],)
-        st.write_key(lkey, ("none",) if ln is None else ("some", ("const", ln, "%d_usize" % ln, None)))
-        st.write_key((P["threshold"],), ("const", thr, "%d_usize" % thr, None))
-        for bi in P.get("bools", []):
-            st.write_key((bi,), ("const", False, "false", None))
+        self.put(st, P["status"], ("agg", STATUS, "StatusCode", {"0": ("const", stt, "%d_u16" % stt, None)}))
+        self.put(st, P["version"], hv(*ver))
+        self.put(st, P["length"], ("none",) if ln is None else ("some", ("const", ln, "%d_usize" % ln, None)))
+        self.put(st, P["threshold"], ("const", thr, "%d_usize" % thr, None))
+        for b in P.get("bools", []):
+            if self.fixed_false.setdefault(b, self.bool_is_fixed_false(b)):
+                self.put(st, b, ("const", False, "false", None))
         ps = [p for p in absint.explore(f, 0, st, on_call=version_models, max_paths=3000, max_visits=2) if p.end[0] == "return"]
         outs = set()
         for p in ps:
@@ -287,6 +336,34 @@ def run(ctx):
             if h is not None and h.rec.get("local") and "{closure" not in h.id and any("common::Header" in h.local_ty(i) for i in range(1, h.argc + 1)) \
                     and any(re.search(r"&('\w+ )?str\b", h.local_ty(i)) for i in range(1, h.argc + 1)):
                 lookup |= {c for c in arg_consts(g, t) if isinstance(c, str)}
+    # ... or is looked up by the caller and handed to the chooser (the chooser has no header list among its inputs): what feeds its arguments
+    if "headers" not in P:
+        rf0 = M.f
+        def equivs_in(fid):
+            out = set()
+            for x in sorted(local_reach(facts, fid)):
+                g = facts.fns.get(x)
+                if g is None:
+                    continue
+                for bb, t in g.calls():
+                    if call_matches(t, r"HeaderField::equiv$"):
+                        out |= {c for c in arg_consts(g, t) if isinstance(c, str)}
+            return out
+        for bb, t in rf0.calls():
+            if call_name(t) != cte.id:
+                continue
+            sl = shared.backward_slice_locals(rf0, [op_local(a) for a in t["args"] if op_local(a) is not None], limit=400)
+            for b2, t2 in rf0.calls():
+                if t2.get("dest") is None or t2["dest"]["l"] not in sl or call_name(t2) == cte.id:
+                    continue
+                h = facts.fns.get(call_name(t2))
+                if h is not None and h.rec.get("local") and any("common::Header" in h.local_ty(i) for i in range(1, h.argc + 1)):
+                    lookup |= equivs_in(h.id)
+                    lookup |= {c for c in arg_consts(rf0, t2) if isinstance(c, str)}
+                for a in t2["args"]:
+                    for x in origin_walk(rf0.origin(a)):
+                        if x[0] == "agg" and isinstance(x[1], str) and x[1] in facts.local_fns and "{closure" in x[1]:
+                            lookup |= equivs_in(x[1])
     ctx.ob("C05.1", "%s|looks-up-TE" % cte.id, "the client's preference is read from the `TE` request header", lookup == {"TE"}, where, str(sorted(lookup)))
     thr_values = [0, 1, 5, 32768]
     versions = [(0, 9), (1, 0), (1, 1), (1, 2), (2, 0), (0, 255)]
@@ -316,7 +393,7 @@ def run(ctx):
     sites = facts.callers_of(cte.id)
     ctx.floor("C05.1 call sites of the coding chooser", len(sites), 1)
     for g, bb, t in sites:
-        okb = all(op_const(t["args"][bi - 1]) is False for bi in P.get("bools", []))
+        okb = all(CM.bool_is_fixed_false(b) for b in P.get("bools", []) if not b[1] or "additional" in b[1][-1][1])
         ctx.ob("C05.1", "call|%s" % g.id, "the coding chooser is called only from the response module, with has_additional_headers = false", g.file == cte.file and okb, g.loc(bb))
     # the chooser's answer is what goes onto the wire: on the abstract paths of raw_print, for either answer, the framing header written
     # is the one of that coding (never overridden afterwards)
@@ -337,7 +414,18 @@ def run(ctx):
     for bb, t in rf.calls():
         if call_name(t) != cte.id:
             continue
-        o = {k: rf.origin(t["args"][i - 1]) for k, i in P.items() if k != "bools"}
+        def arg_origin(slot):
+            i, path = slot
+            o = rf.origin(t["args"][i - 1])
+            for adt, name, fty in path:
+                while o[0] == "ref":
+                    o = o[1]
+                if o[0] == "agg" and o[3] and name in o[3]:
+                    o = o[2][o[3].index(name)]
+                else:
+                    o = ("field", o, name)
+            return o
+        o = {k: arg_origin(v) for k, v in P.items() if k != "bools"}
         ctx.ob("C05.3", "%s|passes-own-status" % raw_print.id, "the decision is made on the response's own status code", M.status_f in origin_fields(o["status"]), rf.loc(bb), origin_str(o["status"]))
         if "headers" in o:
             ctx.ob("C05.3", "%s|passes-request-headers" % raw_print.id, "... on the request's headers", any(x == ("arg", 4) for x in origin_walk(o["headers"])), rf.loc(bb), origin_str(o["headers"]))
@@ -346,7 +434,8 @@ def run(ctx):
         thr_f = [n for n in M.len_f if n != M.dlen_f]
         okt = False
         if thr_f:
-            sl = shared.backward_slice_locals(rf, [op_local(t["args"][P["threshold"] - 1])])
+            sl = shared.backward_slice_locals(rf, [x[1] for x in origin_walk(o["threshold"]) if x[0] == "local"] + ([op_local(t["args"][P["threshold"][0] - 1])] if not P["threshold"][1] else []))
+            okt = thr_f[0] in origin_fields(o["threshold"])
             for b2, i2, s2 in rf.assigns():
                 if s2["lhs"]["l"] in sl:
                     for p_, kind in rvalue_places(s2["rhs"]):
@@ -517,23 +606,25 @@ def run(ctx):
         ctx.note("C05.4: the code ordering the TE preferences has an unrecognised shape; the preference-order clause is NOT decided on this tree")
         ctx.counts["C05.4 preference order"] = "undecided (unrecognised shape)"
     tefs = facts.fn(te_parse)
+    # evaluated token by token (whatever the shape: a chain of comparisons, a `match` on the lower-cased token, a table searched by name)
+    import parser_rules as PRS_
     tbl = {}
-    for bb, t in tefs.calls():
-        if call_matches(t, r"eq_ignore_ascii_case$") and t.get("target") is not None:
-            lit = [c for c in arg_consts(tefs, t) if isinstance(c, str)]
-            bs = bool_switch(tefs, t["target"])
-            if lit and bs:
-                outs = shared.eval_from(tefs, bs[1])
-                vs = set()
-                for pp, st in outs:
-                    v = st.read_key((0,))
-                    if v[0] == "agg" and v[2] == "Ok":
-                        vs.add(v[3]["0"][2])
-                    elif v[0] == "some" and v[1][0] == "agg":
-                        vs.add(v[1][2])
-                tbl[lit[0]] = vs
-    ok = tbl == {"identity": {"Identity"}, "chunked": {"Chunked"}}
-    ctx.ob("C05.4", "%s|coding-literals" % tefs.id, "exactly `identity` and `chunked` (any letter case) are supported and map to the matching variant", ok, "%s:%d" % (tefs.file, tefs.line), str(tbl))
+    samples = {"identity": "Identity", "chunked": "Chunked", "IDENTITY": "Identity", "Chunked": "Chunked", "cHuNkEd": "Chunked", "gzip": None, "": None, "identityx": None, "chunke": None,
+               " chunked": None, "deflate": None, "compress": None}
+    for tok, want in samples.items():
+        g_, ps_ = PRS_.eval_str_fn(facts, tefs.id, tok)
+        vs = set()
+        for pp in ps_:
+            v = PRS_.unwrap_ok(pp.ret())
+            if v is None:
+                vs.add(None)
+            elif v[0] == "agg" and v[1] == TE:
+                vs.add(v[2])
+            else:
+                vs.add("?")
+        tbl[tok] = vs
+    ok = all(tbl[tok] == {want} for tok, want in samples.items())
+    ctx.ob("C05.4", "%s|coding-literals" % tefs.id, "exactly `identity` and `chunked` (any letter case) are supported and map to the matching variant", ok, "%s:%d" % (tefs.file, tefs.line), str({k: sorted(map(str, v)) for k, v in tbl.items() if v != {samples[k]}}))
     variants = [v["name"] for v in facts.adt(TE)["variants"]]
     ctx.ob("C05.4", "%s|variants" % TE, "the supported codings are Identity and Chunked", sorted(variants) == ["Chunked", "Identity"], TE)
     return {}
